@@ -35,6 +35,7 @@ struct Runner
   Tape tape;
   Stats st;
   bool y90 = false;
+  long y90_mono = 0; // Y90 pair events in which the port shares the pair energy equally
   uint64_t last_sig = 0;
 
   bool init()
@@ -120,7 +121,10 @@ struct Runner
       return pd;
     }
     CmpResult c = compare_events(re, pe, rd, pd, y90);
-    if (c.y90_waiver) st.y90_waived++;
+    if (c.y90_waiver) {
+      st.y90_waived++;
+      if (c.y90_mono) y90_mono++;
+    }
     if (!c.same) {
       std::string key = name + "|" + c.kind + "|" + re.signature(c.index < 0 ? 0 : c.index);
       record(st.mm, key, c.detail);
@@ -246,6 +250,15 @@ int main(int argc, char ** argv)
       ds.nodes_found += ds2.nodes_found;
       ds.max_depth = std::max(ds.max_depth, ds2.max_depth);
       ds.frontier_left += ds2.frontier_left;
+    }
+    // the documented difference must be THERE: the README publishes 'Y90' with the revised positron spectrum of the pair branch (from tag
+    // 1.0.8); a build that falls back to the legacy scheme (one energy for both leptons) agrees with the reference everywhere
+    if (R.y90 && R.st.y90_waived >= 10 && R.y90_mono == R.st.y90_waived) {
+      Mismatch & x = R.st.mm[name + "|documented-revision-missing"];
+      x.key = name + "|documented-revision-missing";
+      x.count = R.st.y90_waived;
+      x.detail = fmt("all %ld pair events of Y90 share the pair energy equally (0.3695 + 0.3695 MeV), as the legacy scheme and the reference do: the revised pair spectrum the README documents for 'Y90' "
+                     "is not the one in use", R.st.y90_waived);
     }
     // emit
     Stats & s = R.st;
